@@ -37,6 +37,11 @@ class IntrospectablePass(object):
         self._namespace.walk(self._analyze_node)
         self._namespace.walk(self._introspectable_callable_analysis)
         self._namespace.walk(self._introspectable_callable_analysis)
+        # Types found not introspectable above: propagate to their aliases
+        # and to the fields and callables using those aliases
+        self._namespace.walk(self._introspectable_alias_analysis)
+        self._namespace.walk(self._introspectable_field_analysis)
+        self._namespace.walk(self._introspectable_callable_analysis)
         self._namespace.walk(self._introspectable_property_analysis)
         self._namespace.walk(self._introspectable_pass3)
         self._namespace.walk(self._remove_non_reachable_backcompat_copies)
@@ -201,6 +206,12 @@ class IntrospectablePass(object):
             for param in obj.parameters:
                 self._introspectable_param_analysis(obj, param)
             self._introspectable_param_analysis(obj, obj.retval)
+        self._introspectable_field_analysis(obj, stack)
+        return True
+
+    def _introspectable_field_analysis(self, obj, stack):
+        if obj.skip:
+            return False
         if isinstance(obj, (ast.Class, ast.Interface, ast.Record, ast.Union)):
             for field in obj.fields:
                 if field.type:
